@@ -264,7 +264,9 @@ func TestC07Enum(t *testing.T) {
 		}
 		rec(nil)
 		strs = append(strs, "-", "*", "-x", "*x", "x-y", "x*", "(", ")", ":", "@", ",", "a:b", "a@b", "a,b", "(a)", "/", "/re/", "/x", "x/y", "AND", "OR", "and", "A ND",
-			"\t", "\n", "a\tb", "a\u00a0b", "\x00", "\xff", "a\xffb", "\xc3", "é", "日本語", "\u2028", "\\n", "\\x", "\\\\", "\"\"", "'", "`", "$", "a\\", "\\\"", "a\\\"b", ".name", ".fullname", ".file", "/gomaxprocs", "/size", "k", strings.Repeat("ab", 50))
+			"\t", "\n", "a\tb", "a\u00a0b", "\x00", "\xff", "a\xffb", "\xc3", "é", "日本語", "\u2028", "\\n", "\\x", "\\\\", "\"\"", "'", "`", "$", "a\\", "\\\"", "a\\\"b", ".name", ".fullname", ".file", "/gomaxprocs", "/size", "k", strings.Repeat("ab", 50),
+			// ordinary keys that merely begin like a reserved one
+			".configs", ".config.x", ".config dir", ".config ", ".units", ".unit2", ".unit ", ".names", ".fullnames", ".fullname ", ".conf", ".uni", "/gomaxprocs2", " ", "  ", "\t ")
 		for _, s := range strs {
 			for _, form := range []string{"quote", "x", "mixed", "bare"} {
 				if !yield(mkWord(s, form)) {
@@ -284,7 +286,7 @@ func GenWord(t *rapid.T) WordCase {
 	case 1:
 		s = rapid.StringOfN(rapid.RuneFrom([]rune(`"\ ():@,-*/ab.é`+"\t\n\x00")), 0, 12, -1).Draw(t, "special")
 	case 2:
-		s = rapid.SampledFrom([]string{"/", ".", "-", "*", ""}).Draw(t, "lead") + rapid.StringMatching(`[a-zA-Z0-9_.=/-]{0,10}`).Draw(t, "wordy")
+		s = rapid.SampledFrom([]string{"/", ".", "-", "*", "", ".config", ".unit", ".name", ".fullname", ".file", "/gomaxprocs"}).Draw(t, "lead") + rapid.StringMatching(`[a-zA-Z0-9_.=/ -]{0,10}`).Draw(t, "wordy")
 	default:
 		s = rapid.String().Draw(t, "any")
 		if len(s) > 40 {
@@ -631,7 +633,7 @@ func editProjection(t *rapid.T, base string) (string, string, bool) {
 	case 0:
 		return base + " k@()", "empty_fixed_list", true
 	case 1:
-		return base + ",k@" + rapid.SampledFrom([]string{"nope", "Alpha", "numeric", "NUM", "alphabetic", "x"}).Draw(t, "ord"), "unknown_order", true
+		return base + ",k@" + rapid.SampledFrom([]string{"nope", "Alpha", "numeric", "NUM", "alphabetic", "x", `""`, `" "`, `"alpha "`}).Draw(t, "ord"), "unknown_order", true
 	case 2:
 		return base + " .unit", "unit_in_projection", true
 	case 3:
